@@ -54,6 +54,16 @@ structure Abs where
   exProbe : Bool := false       -- the register `existed` holds the result of a probe of the (unchanged) target
   deriving DecidableEq, Repr
 
+/-- Which clauses the check enforces.  `atomic`: the C16 clauses that C17 does not need (data fsynced
+before the replace, mode copied to the temp file, validation before the first mutating call).  `cas`:
+the C17 clause (with a base_hash, the replace is preceded by a verified re-read).  Everything else —
+only `replace temp target` touches the target, the text is completely written and flushed, every error
+exit has removed the temp file — is enforced always. -/
+structure Strict where
+  atomic : Bool
+  cas : Bool
+  deriving DecidableEq, Repr
+
 /-- Validation errors (everything the pure pipeline or the argument checks can answer). -/
 def Code.isValidation : Code → Bool
   | .E_INPUT | .E_PATH | .E_FILE | .E_PARSE | .E_TOKENIZE | .E_APPLY | .E_EMIT => true
@@ -69,7 +79,7 @@ def DatA.afterFsync : DatA → DatA
 
 /-- Abstract transfer: `none` = the op is not allowed here; `some (aOk, aFail)` = abstract state after
 success / after failure of the op.  `hb` = the call carries a base_hash. -/
-def Abs.step (hb : Bool) (a : Abs) : Op → Option (Abs × Abs)
+def Abs.step (S : Strict) (hb : Bool) (a : Abs) : Op → Option (Abs × Abs)
   | .validatePath => some ({ a with lastA := .unknown }, { a with lastA := .unknown })
   | .exists_ .target => some ({ a with lastA := .targetExists }, { a with lastA := .unknown })
   | .exists_ _ => some ({ a with lastA := .unknown }, { a with lastA := .unknown })
@@ -122,8 +132,9 @@ def Abs.step (hb : Bool) (a : Abs) : Op → Option (Abs × Abs)
               { a with lastA := .unknown, mutd := true, cf := true })
       else none
   | .replace .temp .target =>
-      if a.tmp = .live ∧ a.dat = .synced ∧ a.hOpen = false ∧ (a.chm ∨ a.modeK = .absent)
-          ∧ (hb = false ∨ a.cas = .verified ∨ a.cas = .absent) then
+      if a.tmp = .live ∧ (a.dat = .synced ∨ (S.atomic = false ∧ a.dat = .flushed)) ∧ a.hOpen = false
+          ∧ (S.atomic = false ∨ a.chm ∨ a.modeK = .absent)
+          ∧ (S.cas = false ∨ hb = false ∨ a.cas = .verified ∨ a.cas = .absent) then
         some ({ a with lastA := .unknown, mutd := true, tmp := .installed }, { a with lastA := .unknown, mutd := true })
       else none
   | .other false => some ({ a with lastA := .unknown }, { a with lastA := .unknown })
@@ -138,30 +149,30 @@ def Abs.seenAbsent (a : Abs) : Abs :=
   else if a.tmp ≠ .installed then { a with cas := .absent } else a
 
 /-- The check proper.  `P` are the static parameters the tree was compiled for. -/
-def Prog.disciplined (P : Params) : Prog → Abs → Bool
+def Prog.disciplined (S : Strict) (P : Params) : Prog → Abs → Bool
   | .ret .ok, a => if P.dry then (!a.mutd && a.tmp = .none) else a.tmp = .installed
-  | .ret (.err c), a => a.errOk && (!c.isValidation || !a.mutd) && (!P.dry || !a.mutd)
+  | .ret (.err c), a => a.errOk && (!S.atomic || !c.isValidation || !a.mutd) && (!P.dry || !a.mutd)
   | .raise, a => a.errOk && (!P.dry || !a.mutd)
   | .set .saveExisted k, a =>
-      k.disciplined P { a with exProbe := decide (a.lastA = .targetExists ∧ a.tmp ≠ .installed) }
-  | .set .clearBase k, a => (a.tmp = .none && a.dat = .empty) && k.disciplined P a
+      k.disciplined S P { a with exProbe := decide (a.lastA = .targetExists ∧ a.tmp ≠ .installed) }
+  | .set .clearBase k, a => (a.tmp = .none && a.dat = .empty) && k.disciplined S P a
   | .branch .last x y, a =>
       match a.lastA with
-      | .targetExists => x.disciplined P a && y.disciplined P a.seenAbsent
-      | .tmpProbe => if a.tmp = .live then x.disciplined P a else y.disciplined P a
-      | .false_ => y.disciplined P a
-      | .unknown => x.disciplined P a && y.disciplined P a
+      | .targetExists => x.disciplined S P a && y.disciplined S P a.seenAbsent
+      | .tmpProbe => if a.tmp = .live then x.disciplined S P a else y.disciplined S P a
+      | .false_ => y.disciplined S P a
+      | .unknown => x.disciplined S P a && y.disciplined S P a
   | .branch .existed x y, a =>
-      x.disciplined P a && y.disciplined P (if a.exProbe ∧ a.tmp ≠ .installed then { a with cas := .absent } else a)
-  | .branch .modeSaved x y, a => if a.modeK = .saved then x.disciplined P a else y.disciplined P a
+      x.disciplined S P a && y.disciplined S P (if a.exProbe ∧ a.tmp ≠ .installed then { a with cas := .absent } else a)
+  | .branch .modeSaved x y, a => if a.modeK = .saved then x.disciplined S P a else y.disciplined S P a
   | .branch .mismatchVerify x y, a =>
-      x.disciplined P a && y.disciplined P (if a.cas = .reread then { a with cas := .verified } else a)
-  | .branch _ x y, a => x.disciplined P a && y.disciplined P a
+      x.disciplined S P a && y.disciplined S P (if a.cas = .reread then { a with cas := .verified } else a)
+  | .branch _ x y, a => x.disciplined S P a && y.disciplined S P a
   | .op o k kf, a =>
-      match a.step P.hasBase o with
+      match a.step S P.hasBase o with
       | none => false
       | some (aOk, aFail) =>
-          k.disciplined P aOk && (if o.swallows then k.disciplined P aFail else kf.disciplined P aFail)
+          k.disciplined S P aOk && (if o.swallows then k.disciplined S P aFail else kf.disciplined S P aFail)
 
 def allParams : List Params :=
   [Mode.content, Mode.changes, Mode.normalize].flatMap fun m =>
@@ -171,20 +182,24 @@ theorem allParams_complete (P : Params) : P ∈ allParams := by
   rcases P with ⟨m, hb, d⟩
   cases m <;> cases hb <;> cases d <;> decide
 
-/-- A structured program has the atomic-write (and CAS) discipline for the static parameters `P` when
-its compiled tree passes the check from the initial abstract state. -/
-def Stmt.disciplined (s : Stmt) (P : Params) : Bool := (s.toProg P).disciplined P {}
+/-- A structured program has the discipline (clauses `S`) for the static parameters `P` when its
+compiled tree passes the check from the initial abstract state. -/
+def Stmt.disciplined (s : Stmt) (S : Strict) (P : Params) : Bool := (s.toProg P).disciplined S P {}
+
+/-- The clauses C16 needs / the clauses C17 needs. -/
+def Strict.c16 : Strict := ⟨true, false⟩
+def Strict.c17 : Strict := ⟨false, true⟩
 
 /-- … for every parameter combination (entry points that honour `corrections_only`). -/
-def AtomicDiscipline (s : Stmt) : Prop := ∀ P ∈ allParams, s.disciplined P = true
+def Disciplined (S : Strict) (s : Stmt) : Prop := ∀ P ∈ allParams, s.disciplined S P = true
 
 /-- … for every parameter combination that writes (entry points without a dry-run mode). -/
-def AtomicDisciplineW (s : Stmt) : Prop := ∀ P ∈ allParams, P.dry = false → s.disciplined P = true
+def DisciplinedW (S : Strict) (s : Stmt) : Prop := ∀ P ∈ allParams, P.dry = false → s.disciplined S P = true
 
-instance (s : Stmt) : Decidable (AtomicDiscipline s) := by
-  unfold AtomicDiscipline; infer_instance
+instance (S : Strict) (s : Stmt) : Decidable (Disciplined S s) := by
+  unfold Disciplined; infer_instance
 
-instance (s : Stmt) : Decidable (AtomicDisciplineW s) := by
-  unfold AtomicDisciplineW; infer_instance
+instance (S : Strict) (s : Stmt) : Decidable (DisciplinedW S s) := by
+  unfold DisciplinedW; infer_instance
 
 end Octave
